@@ -95,6 +95,7 @@ class Contract:
     fault_sites: bool = False                 # C12: name exceptional-exit obligations by the fault site (trusted primitive + exception) that was taken
     crash_cond: list = field(default_factory=list)    # C13: clauses that must hold at every crash point (statement boundaries and fault post-states)
     opaque_tests: dict = field(default_factory=dict)  # source text of a boolean expression -> spec expression that stands for it
+    key_check: bool = False                   # a pure pass-through that only checks a dict key (ensure_dict_key_str)
     reveal: tuple = ()                        # recursive spec functions whose definitions this function's proof may unfold
     assume_unreachable: tuple = ()            # source texts of `if` tests assumed False (each listed as an assumption)
     cand_locals: tuple = ()                   # locals that candidates may mention besides __done__/__ret__
